@@ -34,6 +34,10 @@
                               normal_engine_rows; line_items = what one physical line
                               contributes after strip / comment test / substitutions / ^Z
                               removal / splitting).
+   C07_rectangular ASSUMES columns of one length; that both engines return such columns, and
+   "after any successful read all curves have the same length" for Read.read itself, is
+   C07_numpy_engine_rect / C07_normal_engine_rect / C07_read_rectangular in the block "read level"
+   at the end of this file (no hypothesis on the body: WRAP=YES, text columns, several ~A, c <> d).
    Outside these statements: WRAP=YES bodies (Model: same normal_items, the claim is made
    for c = d only, see DESIGN.md), and the sniffing of c (C02_sniff).  No oracle assumption
    except is_float_tok (= float(tok) succeeds) in C07_normal_engine_binds. *)
